@@ -1,6 +1,7 @@
 package c16
 
 import (
+	"bytes"
 	"encoding/base64"
 	"fmt"
 	"os"
@@ -444,6 +445,91 @@ func genMappings(t *rapid.T) string {
 
 var jsonJunk = []string{"null", "true", "false", "0", "-1", "1e999", "3", "3.5", "\"\"", "\"3\"", "[]", "{}", "[[]]", "[null]", "[1]", "[\"a\",null,1,{}]", "{\"a\":1}", "\"\\u0000\"", "\"\\ud800\"", "4294967296", "-0", "18446744073709551616"}
 
+// genNearlyValidMap builds a map that esbuild accepts (so that its entries are really used while the
+// code is printed): in-range source indices, non-negative original positions, mappings on the lines
+// the code really has — and then at most two drawn irregularities of the kinds real tools produce
+// or the format leaves open: non-string entries of `names`/`sources`/`sourcesContent`, a names index
+// equal to the array length, arrays shorter or longer than the indices used, a null sourcesContent.
+func genNearlyValidMap(t *rapid.T, codeLines int) []byte {
+	q := func(s string) string { return strconv.Quote(s) }
+	odd := []string{"null", "1", "{}", "[]", "true", "1.5"}
+	nsrc := rapid.IntRange(1, 3).Draw(t, "nvsrc")
+	nnames := rapid.IntRange(0, 4).Draw(t, "nvnames")
+	var sources, contents, names []string
+	for i := 0; i < nsrc; i++ {
+		sources = append(sources, q(fmt.Sprintf("orig%d.js", i)))
+		contents = append(contents, q(strings.Repeat("callee(arg); other\n", 4)))
+	}
+	for i := 0; i < nnames; i++ {
+		names = append(names, q(rapid.SampledFrom([]string{"orig", "x", "", "a b", "__proto__"}).Draw(t, "nvname")))
+	}
+	for k, n := 0, rapid.IntRange(0, 2).Draw(t, "nvodd"); k < n; k++ {
+		switch rapid.IntRange(0, 5).Draw(t, "nvoddkind") {
+		case 0, 1, 2:
+			if len(names) > 0 {
+				names[rapid.IntRange(0, len(names)-1).Draw(t, "nvoddname")] = rapid.SampledFrom(odd).Draw(t, "nvoddv")
+			}
+		case 3:
+			contents[rapid.IntRange(0, len(contents)-1).Draw(t, "nvoddcont")] = rapid.SampledFrom(odd).Draw(t, "nvoddv")
+		case 4:
+			contents = contents[:rapid.IntRange(0, len(contents)).Draw(t, "nvcontlen")]
+		case 5:
+			sources[rapid.IntRange(0, len(sources)-1).Draw(t, "nvoddsrc")] = rapid.SampledFrom(odd).Draw(t, "nvoddv")
+		}
+	}
+	if codeLines < 1 {
+		codeLines = 1
+	}
+	if codeLines > 30 {
+		codeLines = 30
+	}
+	var sb strings.Builder
+	pSrc, pLine, pCol, pName := 0, 0, 0, 0
+	maxName := nnames - 1
+	if rapid.IntRange(0, 3).Draw(t, "nvnameover") == 0 {
+		maxName = nnames // one past the end
+	}
+	for line := 0; line < codeLines; line++ {
+		if line > 0 {
+			sb.WriteByte(';')
+		}
+		gcol := 0
+		for k, n := 0, rapid.IntRange(0, 3).Draw(t, "nvsegs"); k < n; k++ {
+			if k > 0 {
+				sb.WriteByte(',')
+			}
+			d := rapid.IntRange(0, 6).Draw(t, "nvgcol")
+			if k == 0 {
+				d = rapid.IntRange(0, 2).Draw(t, "nvgcol0")
+				sb.WriteString(vlq(d))
+				gcol = d
+			} else {
+				sb.WriteString(vlq(d))
+				gcol += d
+			}
+			src, ol, oc := rapid.IntRange(0, nsrc-1).Draw(t, "nvs"), rapid.IntRange(0, 3).Draw(t, "nvol"), rapid.IntRange(0, 12).Draw(t, "nvoc")
+			sb.WriteString(vlq(src-pSrc) + vlq(ol-pLine) + vlq(oc-pCol))
+			pSrc, pLine, pCol = src, ol, oc
+			if maxName >= 0 && rapid.IntRange(0, 2).Draw(t, "nvhasname") > 0 {
+				nm := rapid.IntRange(0, maxName).Draw(t, "nvnm")
+				sb.WriteString(vlq(nm - pName))
+				pName = nm
+			}
+		}
+	}
+	fields := []string{`"version":3`, `"sources":[` + strings.Join(sources, ",") + `]`, `"mappings":` + q(sb.String())}
+	if rapid.IntRange(0, 3).Draw(t, "nvhascont") > 0 {
+		fields = append(fields, `"sourcesContent":[`+strings.Join(contents, ",")+`]`)
+	}
+	if nnames > 0 || rapid.Bool().Draw(t, "nvemptynames") {
+		fields = append(fields, `"names":[`+strings.Join(names, ",")+`]`)
+	}
+	if rapid.IntRange(0, 4).Draw(t, "nvroot") == 0 {
+		fields = append(fields, `"sourceRoot":`+q(rapid.SampledFrom([]string{"", "src/", "/abs/", "http://h/r/"}).Draw(t, "nvrootv")))
+	}
+	return []byte("{" + strings.Join(rapid.Permutation(fields).Draw(t, "nvorder"), ",") + "}")
+}
+
 func genSourceMapJSON(t *rapid.T) []byte {
 	junk := func(label string) string { return rapid.SampledFrom(jsonJunk).Draw(t, label) }
 	maybe := func(label, normal string) string {
@@ -516,6 +602,8 @@ func genSourceMapJSON(t *rapid.T) []byte {
 	return b
 }
 
+var nearlyValid bool // set by genSCase for the class label (rapid runs properties on one goroutine)
+
 func genSCase(t *rapid.T) SCase {
 	loader := rapid.SampledFrom([]string{"js", "js", "ts", "css"}).Draw(t, "loader")
 	pool := poolFor(loader)
@@ -527,18 +615,33 @@ func genSCase(t *rapid.T) SCase {
 		}
 		src = append(append(src, s...), '\n')
 	}
-	c := SCase{Loader: loader, Src: src, Map: genSourceMapJSON(t), Enc: rapid.SampledFrom([]string{"base64", "base64", "base64", "percent", "raw"}).Draw(t, "enc"),
+	var m []byte
+	if rapid.IntRange(0, 2).Draw(t, "nearlyvalid") == 0 {
+		m = genNearlyValidMap(t, bytes.Count(src, []byte("\n")))
+	} else {
+		m = genSourceMapJSON(t)
+	}
+	nearlyValid = false
+	if bytes.HasPrefix(m, []byte("{")) && bytes.Contains(m, []byte(`orig0.js`)) {
+		nearlyValid = true
+	}
+	c := SCase{Loader: loader, Src: src, Map: m, Enc: rapid.SampledFrom([]string{"base64", "base64", "base64", "percent", "raw"}).Draw(t, "enc"),
 		Build: rapid.Bool().Draw(t, "build"), Opt: genOpt(t)}
 	c.MapText = preview(c.Map)
 	return c
 }
 
 func runSrcmap(t *testing.T) {
-	H.Rule("srcmap", "rapid: 1–4 corpus snippets (js/ts/css) followed by a `sourceMappingURL=data:application/json` comment whose payload (base64, percent-encoded or raw) is a generated source-map document with drawn defects: wrong JSON types for version/sources/sourcesContent/names/mappings/sourceRoot/ignoreList/sections, arity mismatches, null entries, hostile source names, mappings with huge VLQs, 2^31/2^32/2^63 overflows, negative indices and columns, truncated or invalid segments, truncated/prefixed/byte-mutated documents; the file is transformed, or bundled from stdin, with source maps on (inline or external, ± sourcesContent, ± minify, any target/format). Same oracle as `transform`. Non-trivial = the payload is non-empty.")
+	H.Rule("srcmap", "rapid: 1–4 corpus snippets (js/ts/css) followed by a `sourceMappingURL=data:application/json` comment whose payload (base64, percent-encoded or raw) is either (one third) a map esbuild accepts — in-range indices, mappings on the lines the code really has — with at most two irregularities (non-string entries of names/sources/sourcesContent, a names index one past the end, short sourcesContent), or a generated source-map document with drawn defects: wrong JSON types for version/sources/sourcesContent/names/mappings/sourceRoot/ignoreList/sections, arity mismatches, null entries, hostile source names, mappings with huge VLQs, 2^31/2^32/2^63 overflows, negative indices and columns, truncated or invalid segments, truncated/prefixed/byte-mutated documents; the file is transformed, or bundled from stdin, with source maps on (inline or external, ± sourcesContent, ± minify, any target/format). Same oracle as `transform`. Non-trivial = the payload is non-empty.")
 	H.SetupRapid("srcmap", H.N(20000, scaled(150000)))
 	rapid.Check(t, func(rt *rapid.T) {
 		c := genSCase(rt)
 		cls := []string{"loader=" + c.Loader, "enc=" + c.Enc}
+		if nearlyValid {
+			cls = append(cls, "map=nearly-valid")
+		} else {
+			cls = append(cls, "map=defective")
+		}
 		if c.Build {
 			cls = append(cls, "api=build")
 		} else {
@@ -556,6 +659,18 @@ var cfgLeaves = []string{
 	"{\"import\":\"./module.mjs\",\"require\":\"./index.js\"}", "{\"default\":null}", "{\"default\":[]}", "{\"node\":{\"import\":{\"default\":{\"browser\":\"./browser.js\"}}}}", "{\"./sub\":\"./sub.js\",\"import\":\"./module.mjs\"}", "{\".\":\"./index.js\",\"./sub\":null,\"./sub/*\":\"./sub/*\",\"./*\":{\"default\":\"./lib/*.js\"}}", "{\"./\":\"./lib/\"}", "{\"\":\"./index.js\"}", "{\"*\":\"./index.js\"}", "{\"./a*b*c\":\"./x\"}", "{\"types\":1,\"default\":\"./index.js\"}", "{\"import\":{},\"default\":\"./index.js\"}",
 }
 
+// starKey cuts a `*` into a specifier the fixed entry really uses: prefix = spec[:i], suffix = spec[j:],
+// where j may be smaller than i (prefix and suffix overlap in the requested name), equal, or larger.
+func starKey(t *rapid.T, spec string) string {
+	i := rapid.IntRange(0, len(spec)).Draw(t, "starpre")
+	j := rapid.IntRange(0, len(spec)).Draw(t, "starsuf")
+	return spec[:i] + "*" + spec[j:]
+}
+
+var pathSpecs = []string{"@alias/b", "alias-b", "pkg", "pkg/sub", "pkg/sub/x.js", "pkg/lib/a.js", "#int", "#int/y"}
+var exportSpecs = []string{"./sub", "./sub/x.js", "./lib/a.js", "./package.json", "./style.css", "./img.png", "."}
+var importSpecs = []string{"#int", "#int/y"}
+
 func cfgValue(t *rapid.T, depth int) string {
 	if depth <= 0 || rapid.IntRange(0, 3).Draw(t, "leaf") > 0 {
 		return rapid.SampledFrom(cfgLeaves).Draw(t, "cfgleaf")
@@ -570,7 +685,14 @@ func cfgValue(t *rapid.T, depth int) string {
 	keys := []string{".", "./sub", "./sub/*", "./*", "./lib/", "import", "require", "default", "node", "browser", "custom", "types", "#int", "#int/*", "#", "#/", "pkg", "./index.js", "./lib/a.js", "module", "production", "*", ""}
 	var el []string
 	for i, n := 0, rapid.IntRange(0, 4).Draw(t, "nkeys"); i < n; i++ {
-		el = append(el, strconv.Quote(rapid.SampledFrom(keys).Draw(t, "key"))+":"+cfgValue(t, depth-1))
+		k := rapid.SampledFrom(keys).Draw(t, "key")
+		switch rapid.IntRange(0, 7).Draw(t, "keykind") {
+		case 0:
+			k = starKey(t, rapid.SampledFrom(exportSpecs).Draw(t, "espec"))
+		case 1:
+			k = starKey(t, rapid.SampledFrom(importSpecs).Draw(t, "ispec"))
+		}
+		el = append(el, strconv.Quote(k)+":"+cfgValue(t, depth-1))
 	}
 	return "{" + strings.Join(el, ",") + "}"
 }
@@ -649,10 +771,16 @@ func genTSConfig(t *rapid.T, self string, others []string) []byte {
 		k := rapid.SampledFrom(coNames).Draw(t, "co")
 		var v string
 		switch {
-		case k == "paths" && rapid.IntRange(0, 3).Draw(t, "okpaths") > 0:
+		case k == "paths" && rapid.Bool().Draw(t, "okpaths"):
 			v = rapid.SampledFrom([]string{
 				`{"@alias/*":["./lib/*"],"alias-b":["./lib/b.ts"]}`, `{"*":["./lib/*","*"]}`, `{"@alias/*":[]}`, `{"@alias/*":"./lib/*"}`, `{"@alias/*":[1,null,{}]}`, `{"@alias/*/*":["./lib/*/*"]}`, `{"":[""]}`, `{"*":["*"]}`, `{"@alias/*":["../escape/*"]}`, `{"@alias/*":["/abs/*"]}`, `{"pkg":["./node_modules/pkg/index.js"],"pkg/*":["pkg/*"]}`, `{"alias-b":["alias-b"]}`, `[]`, `null`, `{"@alias/*":["${configDir}/lib/*"]}`,
 			}).Draw(t, "paths")
+		case k == "paths":
+			var el []string
+			for i, n := 0, rapid.IntRange(1, 3).Draw(t, "npaths"); i < n; i++ {
+				el = append(el, strconv.Quote(starKey(t, rapid.SampledFrom(pathSpecs).Draw(t, "pspec")))+":"+rapid.SampledFrom([]string{`["./lib/*"]`, `["./lib/b.ts"]`, `["*"]`, `["./lib/*/*"]`, `[]`, `["./lib/*.ts","./lib/b.ts"]`}).Draw(t, "ptarget"))
+			}
+			v = "{" + strings.Join(el, ",") + "}"
 		case k == "baseUrl" && rapid.Bool().Draw(t, "okbase"):
 			v = rapid.SampledFrom([]string{`"."`, `"./lib"`, `"./missing"`, `".."`, `"/"`, `""`, `"${configDir}"`, `"\u0000"`}).Draw(t, "base")
 		case k == "jsx" && rapid.Bool().Draw(t, "okjsx"):
